@@ -580,6 +580,128 @@ def suite_sim_repeat(ctx, can_run_model):
 
 
 # ---------------------------------------------------------------------------------------------------
+# NETSWEEP suite (C12): one cross-node and one same-node send under every combination of rate signs and cuts
+
+def parse_trace_text(line):
+    """entries of the |T part of a verbose state line"""
+    t = line.split("|T", 1)[1] if "|T" in line else ""
+    return [e for e in t.split(";") if e]
+
+
+def suite_netsweep(ctx, can_run_model):
+    from gen_store import PAYLOADS, bstr
+    from vlib import f64_bits
+    rng = random.Random(ctx.seed * 1000003 + 47)
+    scs = []
+    meta = {}
+    payloads = list(PAYLOADS) + [b'{"x": "\xc3\xa9", "y": "a\\"b"}', b'"a""b"', b'']
+    j = 0
+    reps = 1 if ctx.tier == "quick" and not ctx.widen else 4
+    for _ in range(reps):
+      for drop in (0.0, 0.5):
+        for dupl in (0.0, 0.5):
+            for corr in (0.0, 0.5):
+                for cutk in ("none", "dropout_src", "dropin_dst", "link", "reverse_link", "dropin_src", "partition",
+                             "disconnect_dst", "cut_then_reset"):
+                    pl = rng.choice(payloads)
+                    msg = "%s %s" % (bstr(b"A"), bstr(pl))
+                    lines = ["VERBOSE", "NODE 0 0", "NODE 1 0",
+                             "PROC 0 0 1 0 0 1", "ROW 0 2 S 1 %s S 2 %s" % (msg, msg),
+                             "PROC 1 1 0 0 0 1", "ROW 1 0", "PROC 2 0 0 0 0 1", "ROW 2 0",
+                             "NET 0 0 0 %d %d" % (f64_bits(1.0), f64_bits(1.0))]
+                    lines += gen_mc.clock_lines([0.0], 12)
+                    in_snapshot = rng.random() < 0.5      # rates set in the simulator before the snapshot
+                    rates = []
+                    if in_snapshot:
+                        lines = [l for l in lines if not l.startswith("NET ")]
+                        lines.append("NET %d %d %d %d %d" % (f64_bits(drop), f64_bits(dupl), f64_bits(corr),
+                                                             f64_bits(1.0), f64_bits(1.0)))
+                    else:
+                        if drop: rates.append("DROPRATE %d" % f64_bits(drop))
+                        if dupl: rates.append("DUPLRATE %d" % f64_bits(dupl))
+                        if corr: rates.append("CORRUPTRATE %d" % f64_bits(corr))
+                    cut = {"none": [], "dropout_src": ["DROPOUT 0"], "dropin_dst": ["DROPIN 1"], "link": ["DISABLELINK 0 1"],
+                           "reverse_link": ["DISABLELINK 1 0"], "dropin_src": ["DROPIN 0"], "partition": ["PARTITION 1 0 1 1"],
+                           "disconnect_dst": ["DISCONNECT 1"], "cut_then_reset": ["DISABLELINK 0 1", "DROPOUT 0", "RESET"]}[cutk]
+                    for o in rates + cut:
+                        lines.append("CB NET " + o)
+                    lines.append("CB LOCAL 0 0 %s" % msg)
+                    lines += ["PRED INV NONE", "PRED GOAL NOEVENTS", "PRED PRUNE NONE", "PRED COLLECT NONE",
+                              "RUN BFS FULL 0 3000"]
+                    sc = ("MC", "ns%d-%d" % (ctx.seed, j), lines)
+                    j += 1
+                    scs.append(sc)
+                    is_cut = cutk in ("dropout_src", "dropin_dst", "link", "partition", "disconnect_dst")
+                    meta[sc[1]] = (drop, dupl, corr, is_cut, pl)
+    impl = vlib.run_impl(scs, "ns-impl")
+    model = vlib.run_model(scs, "ns-model") if can_run_model else {}
+    ctx.clauses.update(["C12:cut_unconditional", "C12:drop_iff_rate", "C12:corrupt_iff_rate", "C12:dup_iff_rate",
+                        "C12:copies_bound", "C12:corrupt_once", "C12:same_node", "C12:corrupt_payload"])
+    for sc in scs:
+        sid = sc[1]
+        ctx.evaluations += 1
+        il = impl.get(sid, [])
+        if can_run_model:
+            d = vlib.first_diff(il, model.get(sid, []))
+            if d is not None:
+                ctx.disagreements.append({"suite": "NETSWEEP model-vs-impl", "scenario": vlib.scenario_text(sc),
+                                          "diff": {"line": d[0], "impl": d[1][:300], "model": d[2][:300]}})
+            else:
+                ctx.validated += 1
+        drop, dupl, corr, is_cut, pl = meta[sid]
+        def fail(clause, detail):
+            ctx.monitor_failures.append({"clause": clause, "detail": detail, "scenario": vlib.scenario_text(sc),
+                                         "impl": il[:40], "seed": ctx.seed, "suite": "NETSWEEP"})
+        checks = [l for l in il if l.startswith("CHECK")]
+        saw = {"drop": False, "corr": False, "dup": False}
+        cross = " 0 1"   # src 0 dst 1
+        for l in checks:
+            tr = parse_trace_text(l)
+            # entries after McStarted
+            if "McStarted" in tr:
+                tr = tr[tr.index("McStarted") + 1:]
+            ev = [e.split()[0] + (":x" if e.endswith(" 0 1") else ":s" if e.endswith(" 0 2") else "") for e in tr]
+            n_recv_x = ev.count("McMessageReceived:x")
+            n_recv_s = ev.count("McMessageReceived:s")
+            n_drop_x = ev.count("McMessageDropped:x")
+            n_dup_x = ev.count("McMessageDuplicated:x")
+            n_cor_x = ev.count("McMessageCorrupted:x")
+            if ev.count("McMessageDropped:s") or ev.count("McMessageDuplicated:s") or ev.count("McMessageCorrupted:s") or n_recv_s > 1:
+                fail("C12:same_node", "a message inside a node was dropped, duplicated, corrupted or delivered twice")
+            if is_cut:
+                if n_recv_x or n_dup_x or n_cor_x or n_drop_x != 1:
+                    fail("C12:cut_unconditional", "cut path: expected exactly the unconditional loss, got recv=%d drop=%d dup=%d corrupt=%d" % (n_recv_x, n_drop_x, n_dup_x, n_cor_x))
+            else:
+                saw["drop"] |= n_drop_x > 0
+                saw["corr"] |= n_cor_x > 0
+                saw["dup"] |= n_dup_x > 0
+                if n_dup_x > 2 or n_recv_x + n_drop_x > 1 + n_dup_x:
+                    fail("C12:copies_bound", "recv=%d drop=%d dup=%d" % (n_recv_x, n_drop_x, n_dup_x))
+                if n_cor_x > 1 + n_dup_x:
+                    fail("C12:corrupt_once", "%d corruptions for %d copies" % (n_cor_x, 1 + n_dup_x))
+                for e in tr:
+                    if e.startswith("McMessageCorrupted"):
+                        toks = e.split()
+                        m1, i1 = simmon.parse_msg(toks, 1)
+                        m2, _ = simmon.parse_msg(toks, i1)
+                        if m2[0] != m1[0] or m2[1] != simmon.corrupt(m1[1]):
+                            fail("C12:corrupt_payload", "corrupted payload is not the canonical corruption of the original")
+        res = [l for l in il if l.startswith("RESULT")]
+        if not is_cut and res and res[0] == "RESULT OK":
+            if saw["drop"] != (drop > 0):
+                fail("C12:drop_iff_rate", "loss explored=%s with drop rate %r" % (saw["drop"], drop))
+            if saw["corr"] != (corr > 0):
+                fail("C12:corrupt_iff_rate", "corruption explored=%s with corruption rate %r" % (saw["corr"], corr))
+            if saw["dup"] != (dupl != 0):
+                fail("C12:dup_iff_rate", "duplication explored=%s with duplication rate %r" % (saw["dup"], dupl))
+        if (drop or dupl or corr) and len(checks) >= 3:
+            ctx.nontrivial.add(sc_hash(sc))
+        if len(ctx.samples) < 2:
+            ctx.samples.append({"scenario": "\n".join(l for l in vlib.scenario_text(sc).split("\n") if not l.startswith("CLOCK")),
+                                "states_evaluated": len(checks)})
+
+
+# ---------------------------------------------------------------------------------------------------
 
 def match_known(mf, known):
     for k in known:
